@@ -8,7 +8,8 @@ TrInit == l = 1 /\ url = <<>> /\ opt = <<>> /\ res = <<>> /\ done = FALSE
 TrNext ==
   /\ l <= Len(Tr)
   /\ LET e == Tr[l]
-         bad == OnlyDeletes(e.u, e.t, e.o, e.r, e.exc)
+         bad == IF e.kind = "frame" THEN (IF e.exc # "" THEN {"total"} ELSE FrameFailing(e.r, e.flips))
+                ELSE OnlyDeletes(e.u, e.t, e.o, e.r, e.exc)
      IN /\ url' = e.u /\ opt' = e.o /\ res' = e.r /\ done' = TRUE
         /\ (IF bad = {} THEN TRUE ELSE PrintT(<<"VERDICT", e.id, bad, Triggers(e)>>))
         /\ (IF l < Len(Tr) THEN TRUE ELSE PrintT(<<"TRACE-DONE", l>>))
